@@ -3,8 +3,8 @@
 # the commit it was copied from (BASE, default 7b5e068).  Files the agent did not touch are skipped even if /verif moved on.
 # Shared files are never copied: they are listed for a manual merge (diff against BASE shown with `diff`).
 W=/tmp/w/$1/verif
-BASE=${BASE:-7b5e068}
-SHARED="lean/Main.lean harness/src/ops/mod.rs tools/mk_manifest.py tools/extract_consts.py lean/SmVerif/Model/Basic.lean known_findings.json DESIGN.md MANIFEST.json tools/runner.py harness/Cargo.toml harness/src/util.rs harness/src/main.rs lean/SmVerif/Generated/Consts.lean .gitignore tools/PACKAGE_BRIEF.md tools/AGENT_LEAN_NOTES.md lean/SmVerif.lean"
+BASE=${BASE:-$(cat /tmp/w/$1/BASE 2>/dev/null || echo 7b5e068)}
+SHARED="lean/Main.lean harness/src/ops/mod.rs tools/mk_manifest.py tools/extract_consts.py lean/SmVerif/Model/Basic.lean known_findings.json DESIGN.md MANIFEST.json tools/runner.py harness/Cargo.toml harness/src/util.rs harness/src/main.rs lean/SmVerif/Generated/Consts.lean .gitignore tools/PACKAGE_BRIEF.md tools/AGENT_LEAN_NOTES.md lean/SmVerif.lean check"
 cd "$W" || exit 1
 find . -type f | grep -v -e '^./lean/.lake/' -e '^./harness/target/' -e '^./.work/' -e '^./evidence/' -e '^./replays/' -e '__pycache__' -e 'Cargo.lock' | sed 's|^\./||' | while read f; do
   if git -C /verif cat-file -e "$BASE:$f" 2>/dev/null; then
